@@ -188,5 +188,17 @@ func c20Scripted(scratch string) []*c20Hist {
 	for _, h := range hs {
 		h.kind += "-scripted"
 	}
+	// 7. OUTSIDE the shortage discipline (known finding C20/rescan-during-shortage): an auto cache with a watcher, descriptors
+	// run out, a watched file changes (the watcher's rescan finds nothing it can open), descriptors come back: the cache
+	// stays empty until the next event although a new cache sees the devices
+	b = newC20Builder("single", root(), "d0")
+	b.conf("new", false, b.dirs("d0"))
+	b.write("d0", "c.json", true, "c0")
+	// the change made during the shortage must not itself need a descriptor: unlink
+	b.h.in.Steps = append(b.h.in.Steps, c20Step{Op: "remove", Dir: b.dir("d0"), Name: "a.json", Shortage: true, Observe: true})
+	h7 := b.finish()
+	h7.known = "C20/rescan-during-shortage"
+	hs = append(hs, h7)
+
 	return hs
 }
